@@ -68,6 +68,9 @@ class Prod(fm.TimeComponent):
         self._time = T0
         self.k = 0
         self.static_mask = static_mask
+        self.reuse_state = False
+        self.state = None
+        self.retries = 0
 
     def _next_time(self):
         return self.time + H(self._stp)
@@ -103,7 +106,44 @@ class Prod(fm.TimeComponent):
     def _update(self):
         self._time = self._next_time()
         self.k += 1
+        if self.reuse_state and self.payload == "plain":
+            # a model that publishes its (in-place updated) state array: the output refuses data that
+            # shares memory with the previous publication, the component then publishes a copy
+            if self.state is None:
+                self.state = np.array(self.value())
+            else:
+                self.state[...] = self.value()
+            try:
+                self.outputs["out"].push_data(self.state, self.time)
+            except fm.FinamDataError:
+                self.retries += 1
+                self.outputs["out"].push_data(self.state.copy(), self.time)
+            return
         self.outputs["out"].push_data(self.value(), self.time)
+
+    def _finalize(self):
+        pass
+
+
+class StaticProd(fm.Component):
+    """component with one static output (constant field)"""
+
+    def __init__(self):
+        super().__init__()
+        self._name = "S"
+
+    def _initialize(self):
+        self.outputs.add(name="const", static=True, time=None, grid=fm.UniformGrid(GRID["dims"], data_location="POINTS"), units="m")
+        self.create_connector()
+
+    def _connect(self, st):
+        self.try_connect(st, push_data={"const": np.arange(NVAL, dtype=float).reshape(3, 4) + 100.0})
+
+    def _validate(self):
+        pass
+
+    def _update(self):
+        pass
 
     def _finalize(self):
         pass
@@ -116,13 +156,16 @@ class Cons(fm.TimeComponent):
         self._time = T0
         self.got = []
         self.mask = mask
+        self.with_static = False
 
     def _next_time(self):
         return self.time + H(self._stp)
 
     def _initialize(self):
         self.inputs.add(name="in", time=self.time, grid=fm.UniformGrid(GRID["dims"], data_location="POINTS"), units=None, mask=self.mask)
-        self.create_connector(pull_data=["in"])
+        if self.with_static:
+            self.inputs.add(name="const", static=True, time=None, grid=fm.UniformGrid(GRID["dims"], data_location="POINTS"), units=None)
+        self.create_connector(pull_data=["in"] + (["const"] if self.with_static else []))
 
     def _connect(self, st):
         self.try_connect(st)
@@ -139,6 +182,8 @@ class Cons(fm.TimeComponent):
     def _update(self):
         self._time = self._next_time()
         self.record(hrs(self.time), self.inputs["in"].pull_data(self.time))
+        if self.with_static:
+            self.record(("const", hrs(self.time)), self.inputs["const"].pull_data(self.time))
 
     def _finalize(self):
         pass
@@ -150,11 +195,17 @@ def run_once(spec, limit, tag):
     prod = Prod(spec["pstep"], spec["payload"], spec["units"], None)
     cmask = MASK if spec["payload"] == "masked_fixed" else fm.Mask.FLEX
     cons = Cons(spec["cstep"], cmask)
+    prod.reuse_state = bool(spec.get("reuse_state"))
+    cons.with_static = bool(spec.get("static_slot"))
+    sprod = StaticProd() if spec.get("static_slot") else None
     kw = dict(slot_memory_location=loc)
     per_slot = spec.get("per_slot_limit") and limit is not None
     if not per_slot:
         kw["slot_memory_limit"] = limit
-    comp = fm.Composition([prod, cons] if spec["order"] == 0 else [cons, prod], print_log=False, log_level=logging.CRITICAL + 10, **kw)
+    comps = ([prod, cons] if spec["order"] == 0 else [cons, prod]) + ([sprod] if sprod else [])
+    comp = fm.Composition(comps, print_log=False, log_level=logging.CRITICAL + 10, **kw)
+    if sprod:
+        sprod.outputs["const"] >> cons.inputs["const"]
     x = prod.outputs["out"]
     adas = []
     for s in spec["slots"]:
@@ -196,7 +247,7 @@ def run_once(spec, limit, tag):
                 os.remove(f)
         except OSError:
             pass
-    return dict(err=err, got=cons.got, created=created, removed=removed, left=left, loc=loc, new_cwd=new_cwd, mid=mid_listing)
+    return dict(err=err, retries=prod.retries, got=cons.got, created=created, removed=removed, left=left, loc=loc, new_cwd=new_cwd, mid=mid_listing)
 
 
 class C10(Property):
@@ -227,9 +278,13 @@ class C10(Property):
         units = rnd.choice(["mm/d", "m", "kg m-2 s-1"]) if (payload == "units" or first.startswith("sum")) else "m"
         k = rnd.randint(1, 4)
         limit = rnd.choice([0, 0, k * NBYTES - 1, k * NBYTES, k * NBYTES + 1, 10**9])
-        pstep, cstep = rnd.choice([(1, 1), (1, 3), (2, 3), (1, 5), (3, 1), (3, 2), (5, 2), (2, 7)])
+        pstep, cstep = rnd.choice([(1, 1), (1, 1), (2, 2), (1, 3), (2, 3), (1, 5), (3, 1), (3, 2), (5, 2), (2, 7)])
         return dict(slots=slots, payload=payload, units=units, limit=limit, pstep=pstep, cstep=cstep, end=rnd.choice([6, 12, 20, 35]),
-                    order=rnd.randrange(2), per_slot_limit=rnd.random() < 0.2)
+                    order=rnd.randrange(2), per_slot_limit=rnd.random() < 0.2,
+                    # a producer publishing its in-place updated state array (refused, then a copy is published): only where the
+                    # consumer never reads an older entry again (equal steps, exact-time slots), else the reuse itself corrupts history
+                    reuse_state=(payload == "plain" and pstep == cstep and slots[0] in ("output", "next", "prev", "linear", "step0", "step5") and len(slots) == 1),
+                    static_slot=rnd.random() < 0.15)
 
     def run(self, spec):
         install_hook()
@@ -277,6 +332,10 @@ class C10(Property):
             for s in spec["slots"]:
                 out.count("spill_in_" + s)
             out.key = repr(sorted((k, repr(v)) for k, v in spec.items()))
+        if lim.get("retries") and spilled:
+            out.count("refused_then_retried_publications_with_spill")
+        if spec.get("static_slot") and spilled and spec["limit"] < NBYTES:
+            out.count("static_slot_spills")
         if spec["per_slot_limit"] and spilled:
             out.count("per_slot_limit_spills")
         if spec["payload"].startswith("masked") and spilled:
@@ -284,7 +343,8 @@ class C10(Property):
         return out
 
     def coverage_gaps(self, counters, tier):
-        need = ["pairs_run", "cases_with_spill", "received_items_compared", "per_slot_limit_spills", "masked_spills"] + ["spill_in_" + s for s in SLOTS]
+        need = ["pairs_run", "cases_with_spill", "received_items_compared", "per_slot_limit_spills", "masked_spills",
+                "refused_then_retried_publications_with_spill", "static_slot_spills"] + ["spill_in_" + s for s in SLOTS]
         gaps = [f"{k} never observed" for k in need if not counters.get(k)]
         if counters.get("reference_failed", 0) > 0.02 * max(1, counters.get("pairs_run", 0)):
             gaps.append(f"{counters.get('reference_failed')} reference runs failed")
